@@ -48,7 +48,7 @@ def analyse_unit(path):
             if reps:
                 # facts established inside library sub-rules (raw_string: content ends with at_raw_string_close)
                 reps2, n2, steps2 = bounds.analyse(db, fn, an, linked=linked_pred(db), maxsteps=1500000)
-                if not reps2:
+                if len(reps2) < len(reps):
                     reps, n, steps, mode = reps2, n2, steps + steps2, 'linked'
         except bounds.Budget:
             out['broken'].append('step budget exceeded in %s (%s)' % (fn['disp'][:160], pat)); continue
@@ -93,8 +93,9 @@ def run(tier, prop='C03'):
             if f['disp'] in seen: continue
             seen.add(f['disp']); analysed.add(f['pat']); fam[f['input']] += 1; npaths += f['paths']; steps += f['steps']
             if f['mode'] == 'linked': linked += 1
-            R.ob(ok=not f['reports'], key=f['disp'])
-            for r in f['reports']:
+            reps = [r for r in f['reports'] if r[0] in ('B1', 'B2', 'B4', 'B5')]     # B3 (amount adequacy) is not a memory-safety rule: reported under C07
+            R.ob(ok=not reps, key=f['disp'])
+            for r in reps:
                 R.violation(r[0], f['site'], r[1], {'function': f['disp'], 'at': r[2], 'path': r[3]}, key=(r[0], f['site'], r[1].split(' needs')[0]))
             if len(R.samples) < 10 and f['paths'] > 3:
                 R.sample({'function': f['disp'][:200], 'pattern': f['pat'], 'paths': f['paths'], 'mode': f['mode']})
